@@ -234,6 +234,73 @@ def check_func_eval(prog, rep, qual='cross._func_eval'):
         rep.error('%s: no call of the objective found' % qual)
 
 
+def check_request_siblings(prog, rep, qual='cross._func_eval'):
+    """P-sibling: the cached and the uncached request path are two
+    implementations of one request.  Besides the cache lookup itself (tests
+    that mention the cache or a batch) and the budget test, whatever decides
+    whether the objective is asked at all must be the same on both paths --
+    otherwise a run with a cache asks for values a run without one does not
+    (or the other way round).  Compared only when the function itself holds
+    exactly one objective call per path."""
+    from .paths import guard_atoms
+    fn = prog.func(qual)
+    mod = fn.module
+    params = fn.params
+    if len(params) < 4:
+        return
+    cache = params[3] if 'cache' not in params else 'cache'
+    calls = [c for c in oracle_calls(fn)
+             if model.enclosing_function(prog, mod, c) is fn]
+    if len(calls) != 2:
+        return
+
+    def names_in(t):
+        return {x.id for x in ast.walk(t) if isinstance(x, ast.Name)}
+    # names bound to a batch: the batch parameter and anything derived from it
+    batch = {params[1]}
+    changed = True
+    while changed:
+        changed = False
+        for st in ast.walk(fn.node):
+            if isinstance(st, ast.Assign) and \
+                    isinstance(st.targets[0], ast.Name) and \
+                    st.targets[0].id not in batch and \
+                    names_in(st.value) & batch:
+                batch.add(st.targets[0].id)
+                changed = True
+    sides = []
+    for c in calls:
+        gs = norm_guards(prog, fn, c)
+        extra = set()
+        on_cache = None
+        for t, pol in guard_atoms(gs):
+            nm = names_in(t)
+            if cache in nm and isinstance(t, ast.Compare) and \
+                    len(t.ops) == 1 and isinstance(t.ops[0],
+                                                   (ast.Is, ast.IsNot)):
+                on_cache = (isinstance(t.ops[0], ast.IsNot)) == bool(pol)
+                continue
+            if cache in nm or nm & batch:
+                continue
+            if any(_is_sub(x, 'info', 'm_max') or _is_sub(x, 'info', 'm')
+                   for x in ast.walk(t)):
+                continue            # the budget test (P-budget)
+            extra.add((ast.dump(t), bool(pol), src(mod, t)))
+        sides.append((on_cache, extra, c))
+    if {s[0] for s in sides} != {True, False}:
+        return
+    a, b = sides
+    diff = (a[1] - b[1]) | (b[1] - a[1])
+    rep.add('P-sibling', qual, 'the cached and the uncached request are '
+            'asked under the same conditions',
+            'ok' if not diff else 'violation',
+            '' if not diff else 'only one of the two request paths is guarded '
+            'by %s: with and without a cache the objective is then asked a '
+            'different number of times' % sorted(
+                '%s is %s' % (x[2], x[1]) for x in diff),
+            line=calls[0].lineno, file=mod.path)
+
+
 def _check_wrapper(prog, rep, fn, opar, root_qual, family):
     """All tests are read with their temporaries inlined; the budget rule is
     a propositional entailment (any spelling / nesting / negation of the same
